@@ -251,7 +251,7 @@ def generate(rng, tier):
         if rng.random() < 0.05:
             users.append((realm, "nopw", ""))
         user, password = rng.choice(pool)
-        requser = rng.choice([None, None, user, "someone", ""])
+        requser = rng.choice([None, None, user, "someone", "", user + "x", "x" + user, user + ":" + user, user.upper(), user[:-1]])
         timeout = rng.choice([300, 300, 5, None, 0])
         secret, agent = rng.choice(["sekret", "k"]), rng.choice(["UA", "Mozilla/5.0 (X11)", None])
         method = rng.choice(["GET", "POST", "PUT", "DELETE", "HEAD"])
